@@ -62,7 +62,8 @@ def main(argv):
         return mod.replay(data)
     ck = common.Check(pid, tier, seed)
     try:
-        mod.run(ck)
+        with common.CoqLock():
+            mod.run(ck)
     except Exception:
         tb = traceback.format_exc()
         print(tb)
